@@ -13,6 +13,10 @@ Ops (harness/src/c14.rs runs the same lines on the real code):
   wfill <lo> <hi>             `w ins:t:i<n>:a=t66` for n = lo..hi, one transaction each
   pw <stmts>                  transaction on the peer
   r <v,…>                     peer versions applied here in this order (`process_multiple_changes`)
+  rc <v> <chunk,…>            chunks (`p<k>of<n>` | `lo-hi` | `all`) of ONE peer version in one
+                              `process_multiple_changes` call; a chunk that is not the whole version is
+                              buffered; once the version is fully buffered the background loop applies it
+                              (`process_fully_buffered_changes`) and notifies from the RE-READ live entries
   force                       `thr` batches of one sentinel candidate → threshold flush; events so far
   drain                       one sentinel batch, then (if still buffering) the deadline; events so far
   rows                        primary keys present in table t of A
@@ -89,6 +93,7 @@ structure State where
   pending : List Nat := []
   blog    : List (Nat × List Chg) := []
   applied : List Nat := []                    -- peer versions A's bookkeeping already knows
+  buffered : List (Nat × List (Nat × Nat)) := []  -- peer version -> seq ranges held in the buffer
   drains  : Nat := 0
   out     : List Event := []                  -- emitted, not yet reported
 
@@ -120,13 +125,25 @@ def State.tick (st : State) : State :=
     let r := Corro.Updates.step p st.upd .tick
     { st with upd := r.1, out := st.out ++ r.2 }
 
+def State.toChanges (st : State) (chs : List Chg) : State × List Corro.Updates.Change :=
+  chs.foldl (fun (acc : State × List Corro.Updates.Change) c =>
+      let (s, i) := acc.1.intern c.pk
+      (s, acc.2 ++ [⟨c.tbl == "t", i, c.cl⟩])) (st, [])
+
 /-- what `match_changes` does with one change list -/
 def State.notifyChanges (st : State) (chs : List Chg) : State :=
   if chs.isEmpty then st else
-  let (st, cs) := chs.foldl (fun (acc : State × List Corro.Updates.Change) c =>
-      let (s, i) := acc.1.intern c.pk
-      (s, acc.2 ++ [⟨c.tbl == "t", i, c.cl⟩])) (st, [])
+  let (st, cs) := st.toChanges chs
   st.feed (Corro.Updates.filterChanges cs)
+
+/-- what `process_fully_buffered_changes` does after the apply: nothing unless a row was impacted,
+else `match_changes_from_db_version` over the re-read live entries (a batch is sent even when it
+holds no candidate) -/
+def State.notifyReread (st : State) (impacted : Bool) (live : List Chg) : State :=
+  let (st, cs) := st.toChanges live
+  match Corro.Updates.rereadBatch impacted cs with
+  | none => st
+  | some b => st.feed b
 
 def showEvent (st : State) (e : Event) : String :=
   let tok := st.keys.getD e.key "?"
@@ -173,6 +190,33 @@ def applyVersion (a : Db) (chs : List Chg) : Db × List Chg :=
   chs.foldl (fun (acc : Db × List Chg) c =>
     let a' := merge acc.1 c
     if a'.rows != acc.1.rows then (a', acc.2 ++ [c]) else (a', acc.2)) (a, [])
+
+/-- chunk spec → seq range of `0..=last`: `all`, `p<k>of<n>` (k-th of n contiguous pieces), `lo-hi`.
+Outer `none` = malformed, inner `none` = empty piece / outside the version. -/
+def chunkSpec (spec : String) (last : Nat) : Option (Option (Nat × Nat)) :=
+  if spec = "all" then some (some (0, last)) else
+  if spec.startsWith "p" then
+    match ((spec.drop 1).toString).splitOn "of" with
+    | [k, n] => do
+      let k ← k.toNat?; let n ← n.toNat?
+      if n = 0 ∨ k ≥ n then pure none else
+      let lo := k * (last + 1) / n
+      let hi1 := (k + 1) * (last + 1) / n
+      if hi1 ≤ lo then pure none else pure (some (lo, hi1 - 1))
+    | _ => none
+  else
+    match range? spec with
+    | some (lo, hi) => if lo ≤ hi ∧ hi ≤ last then some (some (lo, hi)) else some none
+    | none => none
+
+def covered (rs : List (Nat × Nat)) (last : Nat) : Bool :=
+  (List.range (last + 1)).all fun s => rs.any fun r => r.1 ≤ s && s ≤ r.2
+
+def State.bufOf (st : State) (v : Nat) : List (Nat × Nat) :=
+  match st.buffered.find? (·.1 = v) with | some (_, rs) => rs | none => []
+
+def State.setBuf (st : State) (v : Nat) (rs : List (Nat × Nat)) : State :=
+  { st with buffered := (v, rs) :: st.buffered.filter (·.1 ≠ v) }
 
 def step (st : State) (toks : List String) : Option (State × String) :=
   match toks with
@@ -230,8 +274,41 @@ def step (st : State) (toks : List String) : Option (State × String) :=
       | none => acc
       | some (_, chs) =>
         let (a', kept) := applyVersion st.a chs
-        ({ st with a := a', applied := v :: st.applied }, notes ++ [kept])) (st, [])
+        ({ st with a := a', applied := v :: st.applied, buffered := st.buffered.filter (·.1 ≠ v) }, notes ++ [kept])) (st, [])
     pure (notes.foldl (fun s kept => s.notifyChanges kept) st, "ok")
+  | ["rc", v, specs] => do
+    let v ← v.toNat?
+    match st.blog.find? (·.1 = v) with
+    | none => pure (st, "err no-such-version")
+    | some (_, chs) =>
+      let last := chs.foldl (fun m c => max m c.seq) 0
+      let specs := splitList specs
+      if specs.isEmpty then none else
+      let parsed ← specs.mapM (fun sp => chunkSpec sp last)
+      match parsed.mapM id with
+      | none => pure (st, "err empty-chunk")
+      | some pieces =>
+        -- the pieces in order, inside one transaction
+        let (st, notes) := pieces.foldl (fun (acc : State × List (List Chg)) pc =>
+          let (st, notes) := acc
+          if st.applied.contains v then acc else
+          if covered (st.bufOf v) last then acc else      -- already fully buffered: contained, skipped
+          if pc.1 = 0 ∧ pc.2 = last then
+            let (a', kept) := applyVersion st.a chs
+            ({ st with a := a', applied := v :: st.applied, buffered := st.buffered.filter (·.1 ≠ v) }, notes ++ [kept])
+          else (st.setBuf v (pc :: st.bufOf v), notes)) (st, [])
+        let st := notes.foldl (fun s kept => s.notifyChanges kept) st
+        -- fully buffered now: the background loop applies the buffered copy and re-reads
+        if ¬ st.applied.contains v ∧ covered (st.bufOf v) last then
+          let a' := mergeAll st.a (sortBySeq chs)
+          let impacted := (sortBySeq chs).foldl (fun (acc : Db × Bool) c =>
+              let n := merge acc.1 c
+              (n, acc.2 || n.rows != acc.1.rows)) (st.a, false)
+          let live := sortBySeq (a'.changesOf 1 v 0 1000000000)
+          let st := { st with a := a', applied := v :: st.applied, buffered := st.buffered.filter (·.1 ≠ v) }
+          pure (st.notifyReread impacted.2 live, "ok applied")
+        else
+          pure (st, if st.applied.contains v then "ok applied" else "ok buffered")
   | ["force"] => do
     let p ← st.params
     let tok := s!"S{st.drains}"
